@@ -183,8 +183,15 @@ def op_run(op, cfg, state, seed, keyname):
             return ("exc", type(e).__name__, str(e)[:120])
         return (tuple(first), tuple(second))
     if kind == "mutate":
-        view = getattr(cfg, op[1])
         how = op[2]
+        if op[1].startswith("map:"):
+            # a mapping requested directly from settings_map() instead of through the cached properties
+            _, it, pretty = op[1].split(":")
+            view = cfg.settings_map(index_type=it, pretty=pretty == "pretty")
+            if not how.startswith("value_"):
+                how = "value_append"
+        else:
+            view = getattr(cfg, op[1])
         key = next(iter(view), None)
         if how == "value_bytes":
             # byte values handed out by the mappings must be immutable bytes objects, not something with in-place operations
@@ -354,7 +361,7 @@ def gen_ops(rng, has_rsa, n):
         elif r < 0.9 and has_rsa:
             ops.append(("session", rng.choice(["fixed", "fixed", "varying"])))
         else:
-            ops.append(("mutate", rng.choice(VIEWS), rng.choice(["setitem", "delitem", "update", "clear", "setdefault", "pop", "value_iadd", "value_append", "value_reverse", "value_clear", "value_setitem", "value_bytes", "value_heap", "value_reinit"])))
+            ops.append(("mutate", rng.choice(VIEWS + ["map:name:pretty", "map:const:pretty", "map:enum:pretty"]), rng.choice(["setitem", "delitem", "update", "clear", "setdefault", "pop", "value_iadd", "value_append", "value_reverse", "value_clear", "value_setitem", "value_bytes", "value_heap", "value_reinit"])))
     return ops
 
 
